@@ -226,6 +226,28 @@ static void check_routes(impl::Lexicon& lex, Rng& rng, std::uint64_t inst)
       }
       { static constexpr impl::String free_default { u8"default" };
         if (&lex.get_label(lex.get_identifier(free_default)) != &L.default_value()) tviol("route:foreign-string->label:default", "get_label(get_identifier(a free-standing String spelled default)) is not default_value()"); }
+      // look-alikes that the client made: Identifier nodes implemented outside the library (a front end's own token nodes are
+      // a legal implementation of the interface) spelled like the built-in types and the symbolic constants, offered to every
+      // factory that takes an Identifier.  What those requests return is the client's business; the library's own routes
+      // from the spellings must still lead to the constants afterwards.
+      {
+         struct Client_identifier final : ipr::Identifier {
+            explicit Client_identifier(const ipr::String& s) : str{s} { }
+            const ipr::String& operand() const final { return str; }
+            void accept(ipr::Visitor& v) const final { v.visit(*this); }
+            const ipr::String& str;
+         };
+         thread_local std::deque<Client_identifier> client_ids; thread_local std::deque<impl::String> client_strings; thread_local std::deque<std::u8string> client_bytes;
+         std::vector<std::u8string> words; for (int i = 0; i < NB; ++i) words.emplace_back(widen(builtins[i].spelling));
+         for (auto w : { u8"default", u8"true", u8"false", u8"nullptr", u8"delete", u8"C", u8"C++" }) words.push_back(w);
+         for (auto& w : words) for (int own = 0; own < 2; ++own) {
+            const ipr::String* sp = &lex.get_string(w);
+            if (!own) { client_bytes.push_back(w); client_strings.emplace_back(client_bytes.back()); sp = &client_strings.back(); }
+            client_ids.emplace_back(*sp); auto& cid = client_ids.back(); tcount("client_made_identifiers_offered");
+            auto& at = lex.get_as_type(cid); (void)lex.get_label(cid); (void)lex.get_symbol(cid, L.int_type()); (void)lex.get_suffix(cid);
+            if (static_cast<const ipr::Node*>(&at.name()) != static_cast<const ipr::Node*>(&cid) && static_cast<const ipr::Node*>(&at.name()) != static_cast<const ipr::Node*>(&lex.get_identifier(w))) tviol("route:client-identifier->as-type:name", "get_as_type(a client-made Identifier) is named by neither that node nor the Lexicon's identifier of the spelling");
+         }
+      }
       if (&lex.get_label(lex.get_identifier(u8"default")) != &L.default_value()) tviol("route:identifier->label:default:after-look-alikes", "get_label(identifier \"default\") is no longer default_value() once a symbol spelled default exists in the Lexicon");
       if (&L.default_value().type() == &L.void_type()) tviol("constant:type:default_value", "default_value() is typed void");
       if (&lex.get_decltype(L.nullptr_value()) != &L.nullptr_value().type()) tviol("route:expression->decltype:nullptr:after-look-alikes", "get_decltype(nullptr_value()) is no longer nullptr_value().type()");
